@@ -96,3 +96,33 @@ Theorem c07_updateUsage : forall cr total calls, total <= 2 ^ 63 - 1 ->
   forall g, gs_inv total g -> vres_ok total (validate_calls cr calls g).
 Proof. exact validate_calls_ok. Qed.
 Print Assumptions c07_updateUsage.
+
+(* ---- The bookkeeping of the model is the code's (translator tools/gofrag) ----------------------
+
+   VerifGen.FragValidation.GasState_updateUsage is GENERATED from GasState.updateUsage
+   (protocol/validation/tx.go) on every run.  C07/Tie.v: [st_of b g] = the generated record with
+   BTMValue b and the three fields of the model's state; [code_view b r] = the model's result as
+   the code reports it (both causes of ErrGasCalculate are one error; the state is returned on
+   every path). *)
+From Verif Require Import GoFrag.
+From VerifGen Require Import FragValidation.
+From C07 Require Import Tie.
+
+(* TIE: the generated method is the hand-written update_usage of theorem c07_updateUsage *)
+Theorem c07_tie_updateUsage : forall b g gasLeft,
+  in_range I64 (g_left g) = true -> in_range I64 gasLeft = true ->
+  GasState_updateUsage (st_of b g) gasLeft = code_view b (update_usage g gasLeft).
+Proof. exact tie_update_usage. Qed.
+Print Assumptions c07_tie_updateUsage.
+
+(* SPEC of the generated method, all int64 inputs *)
+Theorem c07_code_updateUsage : forall g gasLeft,
+  in_range I64 (GasState_GasLeft g) = true -> in_range I64 gasLeft = true ->
+  GasState_updateUsage g gasLeft =
+  if (gasLeft <? 0) || negb (in_range I64 (GasState_GasLeft g - gasLeft)) then Some (Some ErrGasCalculate, g)
+  else
+    let g' := mkGasState (GasState_BTMValue g) gasLeft
+                (wrap I64 (GasState_GasUsed g + (GasState_GasLeft g - gasLeft))) (GasState_StorageGas g) in
+    if GasState_StorageGas g >? gasLeft then Some (Some ErrOverGasCredit, g') else Some (None, g').
+Proof. exact updateUsage_spec. Qed.
+Print Assumptions c07_code_updateUsage.
